@@ -184,13 +184,14 @@ def body(chk):
     NAME = tm.sym('NAME', 'S')
     scalars = ('double',) if chk.tier == 'quick' else ('double', 'long double')
     for scalar in scalars:
-        st, handles, objs = R.build(w, scalar, ['euler_1d'], symbolic=True)
+        # two registered handles, the second one selected: H symbolic covers a new handle, the selected one and a registered non-selected one
+        st, handles, objs = R.build(w, scalar, ['euler_1d', 'euler_2d'], symbolic=True)
         S.install_api_models(w)
         st0, sols, _ = w.catalogue(scalar)
         names = [s['name'] for s in sols]
         finit = S.api_fn(w, 'masa_init', scalar, 'std::string, std::string')
         ptr0, ents0 = R.snapshot(w, st, scalar)
-        paths = w.ex.explore(st, lambda ex: ex.call(finit, [S.new_string(ex, H), S.new_string(ex, NAME)]), 4 * len(names) + 8)
+        paths = w.ex.explore(st, lambda ex: ex.call(finit, [S.new_string(ex, H), S.new_string(ex, NAME)]), 8 * len(names) + 16)
         chk.functions.add(finit)
         bad, seen = [], set()
         why = ''
@@ -239,11 +240,13 @@ def resolution_replay(chk, scalar, why):
         lines = ['masa_init<Scalar>(" My-Handle ","Euler_  1D--"); std::string n; masa_get_name<Scalar>(&n); printf("\\nR name %s\\n", n.c_str());',
                  'int caught=0, ghost=0; try { masa_init<Scalar>("ghost","no_such_solution"); } catch(int e) { caught=1; } try { masa_select_mms<Scalar>("ghost"); ghost=1; } catch(int e) { ghost=0; } printf("R nothing_registered %d\\n", caught==1 && ghost==0);',
                  'masa_init<Scalar>("other","HEATEQ_2D-steady_ const"); masa_get_name<Scalar>(&n); printf("R name2 %s\\n", n.c_str());',
-                 'masa_select_mms<Scalar>(" My-Handle "); masa_get_name<Scalar>(&n); printf("R back %s\\n", n.c_str());']
+                 'masa_select_mms<Scalar>(" My-Handle "); masa_get_name<Scalar>(&n); printf("R back %s\\n", n.c_str());',
+                 # a registered handle that is NOT the current selection is re-initialised with a decorated name: the resolved solution is the selected one
+                 'masa_select_mms<Scalar>("other"); masa_init<Scalar>(" My-Handle "," EULER-3d "); masa_get_name<Scalar>(&n); printf("R reinit %s\\n", n.c_str());']
         src = '#include <masa.h>\n#include <cstdio>\n#include <string>\nusing namespace MASA;\ntypedef %s Scalar;\nint main(){\n%s\n return 0;}\n' % (cxx, '\n'.join(lines))
         from replay import Lib
         rc, out, err = Lib(chk.scratch, extra=('-DMASA_EXCEPTIONS',)).run(src)
-        expect = ['R name euler_1d', 'R nothing_registered 1', 'R name2 heateq_2d_steady_const', 'R back euler_1d']
+        expect = ['R name euler_1d', 'R nothing_registered 1', 'R name2 heateq_2d_steady_const', 'R back euler_1d', 'R reinit euler_3d']
         missing = [e for e in expect if e not in out]
         if missing:
             path = chk.save_replay(ob, dict(expected=expect, stdout=out[-1500:], why=why), src)
